@@ -8,9 +8,9 @@ R["C01"] = ("cases: seeded graph families (gnp over the whole density range, gri
             "x {signed, fvs_trees, iso_trees}. distinct = (graph hash, entry point); non-trivial = cycle-space dimension >= 2 and (two candidate cycles of equal exact weight exist "
             "[oracle A], or both search strategies of the signed algorithm fired [probes], or the graph is beyond brute force and was judged by oracle B)")
 R["C02"] = R["C01"]
-R["C05"] = ("cases: graphs as C01 x k in 1..5 x {approx_signed, approx_fvs_trees, approx_iso_trees} x layout; observation after the call has returned. "
+R["C05"] = ("cases: graphs as C01 x k in 1..5 x {approx_signed, approx_fvs_trees, approx_iso_trees} x layout (stage tbb: the approx_*_tbb entry points, k in 1..10, 20% multi-component graphs, seeded schedule); observation after the call has returned. "
             "distinct = (graph hash, entry, k); non-trivial = the spanner kept >= 1 cycle (exact phase emitted a cycle) and dropped >= 1 edge (probe approx_non_spanner_cycle)")
-R["C06"] = R["C05"] + "; k = 0 cases: non-trivial when the graph has an edge"
+R["C06"] = R["C05"].replace(" (stage tbb: the approx_*_tbb entry points, k in 1..10, 20% multi-component graphs, seeded schedule)", "") + "; k = 0 cases: non-trivial when the graph has an edge"
 R["C09"] = ("cases: small graphs with inexact double weights (0.1*i, 0.01*i, log-uniform in [1e-3,1e3], 0.1*{1,2,3}) x exact entry points x layout; optimum in exact rational "
             "arithmetic (every double decomposed exactly). distinct = (graph hash, entry); non-trivial = dimension >= 2 and two candidate cycles tie in exact arithmetic")
 R["C15"] = ("cases: graphs as C01 x k in 1..5; the spanner is read through the PARMCB_VERIF accessors right after construction. distinct = (graph hash, k); "
